@@ -12,6 +12,14 @@ CLAIMED = {
             "Every access to mutable shared storage state is inside its lock (lexically or in a helper all of whose call sites hold it); journal append+replay+read are one region; RDB session use is inside one transaction region and the three compare-and-set sites take a row lock first; non-reentrant locks are not re-acquired. Exhaustive over all methods of the storage classes. Decides the locking discipline - a necessary condition of linearizability that no test can see - not linearizability itself.",
             "Trusts threading locks, SQLAlchemy with_for_update and the AST-based receiver resolution (self.<field> only, one alias level).",
             "DESIGN.md §3 C03"),
+    "C05": ("ordered must-pass-through (reachability on a CFG with exceptional edges and duplicated finally suites); who-may-open census with positive fixture",
+            "Journal append is one write->flush->fsync in order before the lock region is left, the file is only opened ab/rb, every journal mutator acknowledges only after the append, the cache layer is write-through, the RDB scoped session commits only on the normal continuation, rolls back first in every except arm, closes on all exits, and each RDB mutator writes in one transaction region. Exhaustive over all paths of the anchored functions. Decides ordering (a necessary condition of crash safety); does not decide behaviour on torn records or stale-lock take-over.",
+            "Trusts os.fsync, SQLAlchemy commit/rollback atomicity; exception edges: every call may raise.",
+            "DESIGN.md §3 C05"),
+    "C07": ("held-region census, CFG dominance over branch edges (per loop iteration), exclusive-create constant folding, sibling fact tables",
+            "Every journal write is under the inter-process file lock, acquire() can report success only after os.symlink / os.open(O_CREAT|O_EXCL) succeeded, release renames to a unique name then unlinks and is reached on all exits, the reader accepts a line only under the newline / size-snapshot / no-pending-error guards, and offset-cache entries are derived and dropped consistently. Exhaustive over paths of _file.py. Decides these necessary clauses, not file-system atomicity or take-over races.",
+            "Trusts EEXIST semantics of symlink/O_EXCL and atomic rename.",
+            "DESIGN.md §3 C07"),
 }
 
 NOT_APPLICABLE = {
